@@ -14,6 +14,7 @@ type C10Case struct {
 	Root  V      `json:"root"`
 	Path  string `json:"path"`
 	Class string `json:"class"` // how the path was produced (informational)
+	Build int    `json:"build,omitempty"` // construction-route seed (0 = Add/Set)
 }
 
 // tfKeys: non-empty, sigil-free keys (the only keys tree form can address).
@@ -22,7 +23,7 @@ var tfKeys = []string{"a", "b", "k", "x", "key", "é", "a b", "0", "1", "-1", "A
 func tfKeyGen(t *rapid.T) string { return tfKeys[drawIdx(t, len(tfKeys), "tfkey")] }
 
 func tfTreeCfg() TreeCfg {
-	return TreeCfg{MaxDepth: 5, MaxWidth: 4, MaxStr: 4, KeyGen: tfKeyGen}
+	return TreeCfg{MaxDepth: 5, MaxWidth: 4, MaxStr: 4, KeyGen: tfKeyGen, LongLists: true}
 }
 
 // tfSeg is one parsed path segment.
@@ -266,6 +267,14 @@ func corruptPath(t *rapid.T, root V, segs []tfSeg) (string, string) {
 }
 
 func GenC10(t *rapid.T) *C10Case {
+	c := genC10(t)
+	if drawBool(t, "variant") {
+		c.Build = 1 + genRaw(t)
+	}
+	return c
+}
+
+func genC10(t *rapid.T) *C10Case {
 	cfg := tfTreeCfg()
 	class := pick(t, "class", 40, 45, 15)
 	if class == 0 && drawInt(t, 0, 3, "distractors") == 0 {
@@ -362,7 +371,7 @@ func CheckC10(c *C10Case, st *Stats) error {
 	if c.Root.K != KList && c.Root.K != KObject {
 		return nil
 	}
-	root := Build(c.Root)
+	root := BuildVariant(c.Root, c.Build)
 	before, err := TakeIdentSnap(root)
 	if err != nil {
 		return err
